@@ -434,9 +434,24 @@ func genC04Stale(d *Draw) Case {
 	g.addNode(&Node{ID: "F", Kind: "and"})
 	g.connect(defs, "Start", "F", nil, -1)
 	g.addNode(&Node{ID: "X1", Kind: "xor"})
-	g.connect(defs, "F", "X1", nil, -1)
+	// racy: a task in front of the first gateway is answered at the same moment as the sibling that writes flip, so the
+	// gateway reads the variables (its condition is on another one, which never changes: the outcome is fixed) while
+	// the write is going on - whatever a reader keeps of what it read then must not decide the second gateway
+	racy := d.Bool()
+	if racy {
+		g.addNode(&Node{ID: "TA0", Kind: "task"})
+		g.connect(defs, "F", "TA0", nil, -1)
+		g.connect(defs, "TA0", "X1", nil, -1)
+		vars["other"] = true
+	} else {
+		g.connect(defs, "F", "X1", nil, -1)
+	}
 	g.addNode(&Node{ID: "TA", Kind: "task"}) // declares no results: answering it stores nothing
-	g.connect(defs, "X1", "TA", &Cond{Var: "flip", Want: init}, -1)
+	if racy {
+		g.connect(defs, "X1", "TA", &Cond{Var: "other", Want: true}, -1)
+	} else {
+		g.connect(defs, "X1", "TA", &Cond{Var: "flip", Want: init}, -1)
+	}
 	g.addNode(&Node{ID: "TD1", Kind: "task", Results: []string{"r_TD1"}})
 	df := g.connect(defs, "X1", "TD1", nil, -1)
 	g.Node("X1").Default = df.ID
@@ -484,7 +499,11 @@ func genC04Stale(d *Draw) Case {
 	// answers only when the engine is at rest: a sibling's result is then stored before the next answer is given
 	c := &ProcCase{Prog: prog, Buf: d.N(17), Hold: 2}
 	c.Picks = drawPicks(d, 24)
-	c.Meta = map[string]int{"k": 1}
+	c.Meta = map[string]int{"k": 1, "racy": b2i(racy)}
+	if racy {
+		c.Together = []string{"TA0", "TB"}
+		prog.Desc += " [the first gateway reads the variables while the sibling's answer is stored]"
+	}
 	return c
 }
 
@@ -707,6 +726,7 @@ func checkC04(cc Case, r *simrt.Result) *Outcome {
 	probe(o, "informal-expression", hasTag(c.Prog.Tags, "informal-expression"))
 	probe(o, "several-tokens-over-one-incoming-flow", hasTag(c.Prog.Tags, "single-incoming-flow"))
 	probe(o, "variable-changed-by-sibling-between-two-gateways", hasTag(c.Prog.Tags, "stale-variables"))
+	probe(o, "gateway-reads-the-variables-while-a-sibling's-answer-is-stored", c.Meta["racy"] == 1 && c.env.FaultCounts()["answers-at-the-same-moment"] > 0)
 	o.Sample = map[string]any{"program": c.Prog.Desc, "vars": c.Prog.Vars, "buf": c.Buf, "hold": c.Hold, "requests": tg.Requests, "tags": c.Prog.Tags}
 	return o
 }
